@@ -399,6 +399,7 @@ def units(tier, seed):
     for nm in names:
         out.append(("named", {"names": [nm], "per": 3 if q else 40}))
     out.append(("secp112r2", {"count": 3 if q else 20}))
+    out.append(("registry", {}))
     return out
 
 
@@ -418,11 +419,19 @@ def run_unit(ctx, name, **kw):
             named_cases(ctx, cname, kw["per"], ctx.seed)
     elif name == "secp112r2":
         small_subgroup_112r2(ctx, kw["count"])
+    elif name == "registry":
+        # acceptance of the SubjectPublicKeyInfo wrapper follows the public curve registry at call time
+        from .c09 import check_registry
+        check_registry(ctx)
     else:
         raise ValueError(name)
 
 
 def replay(ctx, case):
+    if case.get("kind") == "registry":
+        from .c09 import check_registry
+        check_registry(ctx)
+        return
     d = gen.dom(case["curve"])
     if case["kind"] == "string":
         judge_string(ctx, d, bytes.fromhex(case["data"]))
